@@ -12,6 +12,7 @@ Qed.
 
 Section PFuel.
 Variable fl : flags.
+Variable pf : pflags.
 Variable ns : str -> option str.
 Variable pe : nat -> list tok -> res (expr * list tok).
 Variable lf : nat.
@@ -80,33 +81,42 @@ Proof.
   destruct (pp_steps fl ns pe lf m (tl ts1)) as [[r2 ts2]| |]; try discriminate. congruence.
 Qed.
 
-Lemma pp_head_len : forall ts h q r, pp_head fl ns pe lf ts = Ok (h, q, r) -> length r <= length ts.
+Lemma pp_head_len : forall ts h q r, pp_head fl pf ns pe lf ts = Ok (h, q, r) -> length r <= length ts.
 Proof.
   intros ts h q r H. unfold pp_head in H.
   pose proof (tl_len ts) as L1. pose proof (tl_len (tl ts)) as L2.
   destruct (is_idkey ts).
   - destruct (p_funcall fl ns pe lf 0 ts) as [[f t1]| |] eqn:E1; try discriminate.
     apply (p_funcall_len fl ns pe lf pe_len) in E1. pose proof (tl_len t1).
-    destruct (negb (lit_ok f)); try discriminate.
+    destruct (negb (head_call_ok pf (tok_is ts kw_key) f)); try discriminate.
+    destruct (px_lpp pf && negb (isnil t1) && negb (N.eqb (tokc t1) ch_solidus) && negb (N.eqb (tokc t1) ch_bar))%bool; try discriminate.
     destruct (is_dslash t1); inversion H; subst; lia.
   - destruct (N.eqb (tokc ts) ch_solidus); [destruct (look_c ts ch_solidus 1)|]; inversion H; subst; lia.
 Qed.
 
-Lemma pp_head_nofuel : forall ts, length ts <= B -> length ts < lf -> pp_head fl ns pe lf ts <> Fuel.
+Lemma pp_head_nofuel : forall ts, length ts <= B -> length ts < lf -> pp_head fl pf ns pe lf ts <> Fuel.
 Proof.
   intros ts HB Hl. unfold pp_head.
   destruct (is_idkey ts).
   - pose proof (p_funcall_fuel fl ns pe lf B pe_len pe_fuel 0 ts HB Hl) as F.
     destruct (p_funcall fl ns pe lf 0 ts) as [[f t1]| |]; try discriminate; [|congruence].
-    destruct (negb (lit_ok f)); try discriminate. destruct (is_dslash t1); discriminate.
+    destruct (negb (head_call_ok pf (tok_is ts kw_key) f)); try discriminate.
+    destruct (px_lpp pf && negb (isnil t1) && negb (N.eqb (tokc t1) ch_solidus) && negb (N.eqb (tokc t1) ch_bar))%bool; try discriminate.
+    destruct (is_dslash t1); discriminate.
   - destruct (N.eqb (tokc ts) ch_solidus); [destruct (look_c ts ch_solidus 1)|]; discriminate.
 Qed.
 
-Lemma pp_lpp_len : forall ab ts a r, pp_lpp fl ns pe lf ab ts = Ok (a, r) -> length r <= length ts.
+Lemma pp_lpp_len : forall ab ts a r, pp_lpp fl pf ns pe lf ab ts = Ok (a, r) -> length r <= length ts.
 Proof.
-  intros ab ts a r H. unfold pp_lpp in H.
-  destruct (pp_head fl ns pe lf ts) as [[[hd q] ts1]| |] eqn:E1; try discriminate.
+  intros ab ts a r H. unfold pp_lpp, pp_tail in H.
+  destruct (pp_head fl pf ns pe lf ts) as [[[hd q] ts1]| |] eqn:E1; try discriminate.
   apply pp_head_len in E1.
+  destruct (px_lpp pf).
+  { destruct (negb (isnil ts1) && negb (N.eqb (tokc ts1) ch_bar))%bool.
+    - destruct (q && N.eqb (tokc ts1) ch_solidus)%bool; try discriminate.
+      destruct (pp_steps fl ns pe lf lf ts1) as [[ss ts2]| |] eqn:E2; try discriminate.
+      inversion H; subst. apply pp_steps_len in E2. lia.
+    - destruct (q || isnil hd)%bool; inversion H; subst; lia. }
   destruct (q && (isnil ts1 || N.eqb (tokc ts1) ch_bar))%bool; try discriminate.
   destruct (isnil ts1); [inversion H; subst; lia|].
   destruct (negb (N.eqb (tokc ts1) ch_bar)).
@@ -115,50 +125,55 @@ Proof.
   - destruct (ab && isnil hd)%bool; inversion H; subst; lia.
 Qed.
 
-Lemma pp_lpp_nofuel : forall ab ts, length ts <= B -> length ts < lf -> pp_lpp fl ns pe lf ab ts <> Fuel.
+Lemma pp_lpp_nofuel : forall ab ts, length ts <= B -> length ts < lf -> pp_lpp fl pf ns pe lf ab ts <> Fuel.
 Proof.
-  intros ab ts HB Hl. unfold pp_lpp.
+  intros ab ts HB Hl. unfold pp_lpp, pp_tail.
   pose proof (pp_head_nofuel ts HB Hl) as F.
-  destruct (pp_head fl ns pe lf ts) as [[[hd q] ts1]| |] eqn:E1; try discriminate; [|congruence].
+  destruct (pp_head fl pf ns pe lf ts) as [[[hd q] ts1]| |] eqn:E1; try discriminate; [|congruence].
   apply pp_head_len in E1.
+  pose proof (pp_steps_nofuel lf ts1 ltac:(lia) ltac:(lia) ltac:(lia)) as F2.
+  destruct (px_lpp pf).
+  { destruct (negb (isnil ts1) && negb (N.eqb (tokc ts1) ch_bar))%bool.
+    - destruct (q && N.eqb (tokc ts1) ch_solidus)%bool; try discriminate.
+      destruct (pp_steps fl ns pe lf lf ts1) as [[ss ts2]| |]; try discriminate. congruence.
+    - destruct (q || isnil hd)%bool; discriminate. }
   destruct (q && (isnil ts1 || N.eqb (tokc ts1) ch_bar))%bool; try discriminate.
   destruct (isnil ts1); [discriminate|].
   destruct (negb (N.eqb (tokc ts1) ch_bar)).
-  - pose proof (pp_steps_nofuel lf ts1 ltac:(lia) ltac:(lia) ltac:(lia)) as F2.
-    destruct (pp_steps fl ns pe lf lf ts1) as [[ss ts2]| |]; try discriminate. congruence.
+  - destruct (pp_steps fl ns pe lf lf ts1) as [[ss ts2]| |]; try discriminate. congruence.
   - destruct (ab && isnil hd)%bool; discriminate.
 Qed.
 
 Lemma pp_pattern_nofuel : forall m ab ts, length ts <= B -> length ts < lf -> length ts < m ->
-  pp_pattern fl ns pe lf m ab ts <> Fuel.
+  pp_pattern fl pf ns pe lf m ab ts <> Fuel.
 Proof.
   induction m as [|m IH]; intros ab ts HB Hl Hm; [lia|]. cbn [pp_pattern].
   pose proof (pp_lpp_nofuel ab ts HB Hl) as F.
-  destruct (pp_lpp fl ns pe lf ab ts) as [[a ts1]| |] eqn:E1; try discriminate; [|congruence].
+  destruct (pp_lpp fl pf ns pe lf ab ts) as [[a ts1]| |] eqn:E1; try discriminate; [|congruence].
   apply pp_lpp_len in E1.
   destruct (N.eqb (tokc ts1) ch_bar) eqn:E2; [|discriminate].
   pose proof (tokc_nonnil ts1 _ E2 ltac:(discriminate)) as L.
   specialize (IH true (tl ts1) ltac:(lia) ltac:(lia) ltac:(lia)).
-  destruct (pp_pattern fl ns pe lf m true (tl ts1)) as [[r2 ts2]| |]; try discriminate. congruence.
+  destruct (pp_pattern fl pf ns pe lf m true (tl ts1)) as [[r2 ts2]| |]; try discriminate. congruence.
 Qed.
 
 End PFuel.
 
-Theorem pparse_fuel_sufficient_m : forall fl ns ts, pparse fl ns ts <> Fuel.
+Theorem pparse_fuel_sufficient_m : forall fl pf ns ts, pparse fl pf ns ts <> Fuel.
 Proof.
-  intros fl ns ts. unfold pparse.
+  intros fl pf ns ts. unfold pparse.
   set (n := S (length ts)).
   assert (PL : forall d ts e r, p_expr fl ns n d ts = Ok (e, r) -> length r <= length ts)
     by (intros d t e r; apply (p_expr_both fl ns n d t)).
   assert (PF : forall d ts, length ts < n -> p_expr fl ns n d ts <> Fuel)
     by (intros d t; apply (p_expr_both fl ns n d t)).
-  pose proof (pp_pattern_nofuel fl ns (p_expr fl ns n) (S n) n PL PF (S n) false ts ltac:(unfold n; lia) ltac:(unfold n; lia) ltac:(unfold n; lia)) as F.
-  destruct (pp_pattern fl ns (p_expr fl ns n) (S n) (S n) false ts) as [[p [|t r]]| |]; try discriminate. congruence.
+  pose proof (pp_pattern_nofuel fl pf ns (p_expr fl ns n) (S n) n PL PF (S n) false ts ltac:(unfold n; lia) ltac:(unfold n; lia) ltac:(unfold n; lia)) as F.
+  destruct (pp_pattern fl pf ns (p_expr fl ns n) (S n) (S n) false ts) as [[p [|t r]]| |]; try discriminate. congruence.
 Qed.
 
-Theorem pcompile_total_m : forall fl ns s, pcompile fl ns s <> Fuel.
+Theorem pcompile_total_m : forall fl pf ns s, pcompile fl pf ns s <> Fuel.
 Proof.
-  intros fl ns s. unfold pcompile. pose proof (compile_total_m fl ns s) as C. unfold compile in C.
+  intros fl pf ns s. unfold pcompile. pose proof (compile_total_m fl ns s) as C. unfold compile in C.
   destruct (tokenize fl ns s) as [ts| |]; try discriminate; [|congruence].
   apply pparse_fuel_sufficient_m.
 Qed.
